@@ -36,6 +36,11 @@ def replay(w):
 def run(ctx):
     tier = ctx.tier
     carve = sorted(ctx.known)
+    # regression obligation on the real CLI (concrete): the repaired defect must stay repaired
+    still = replay({})
+    if still:
+        ctx.violation("license-sibling-created-before-failure", "annotate --force-dot-license with a template that renders nothing exits 1 and leaves a new empty a.py.license behind", {"cli": "annotate --force-dot-license --template empty a.py"})
+    ctx.ob("real CLI: a failed --force-dot-license annotation leaves no new .license file", "concrete", "violated" if still else "holds")
     conds = []
     tmo = 500 if tier == "quick" else 3000
     combos = [(m, "none") for m in ("none", "style", "force_dot_license", "fallback_dot_license", "skip_unrecognised")] + [("none", "single"), ("none", "multi"), ("style", "single"), ("style", "multi")]
